@@ -538,6 +538,82 @@ def flag_true_edges(fn, is_flag):
     return fn.edges_where(lambda a: is_flag(strip_casts(a)), True)
 
 
+
+def counts_under_flag(fn, NT, is_flag, sink="scheduleBulk"):
+    """{True: set, False: set}: the symbolic values ('n', 'n-1', None = anything else) that the first
+    argument of every `sink` call can take, relative to the variable NT, on the paths where the boolean
+    flag is true / false. `flag ? n - 1 : n`, `n; if (flag) --n;`, `n - (flag ? 1 : 0)`, `n - flag`
+    all evaluate the same."""
+    from . import dataflow
+
+    def classify(x, env, flag, depth=6):
+        x = strip_casts(x)
+        if not isinstance(x, dict) or depth <= 0:
+            return None
+        if x.get("k") == "var":
+            if x.get("vid") == NT:
+                return "n"
+            return dict(env).get(x.get("vid"))
+        if x.get("k") == "cond":
+            c, pol = strip_casts(x.get("c")), True
+            while isinstance(c, dict) and c.get("k") == "un" and c.get("op") == "!":
+                c, pol = strip_casts(c.get("e")), not pol
+            if is_flag(c):
+                return classify(x.get("t") if flag == pol else x.get("f"), env, flag, depth - 1)
+            return None
+        if x.get("k") == "bin" and x.get("op") == "-":
+            l = classify(x.get("l"), env, flag, depth - 1)
+            r = strip_casts(x.get("r"))
+            rv = const_val(r)
+            if rv is None and isinstance(r, dict) and r.get("k") == "cond" and is_flag(strip_casts(r.get("c"))):
+                rv = const_val(r.get("t") if flag else r.get("f"))
+            if rv is None and is_flag(r):
+                rv = 1 if flag else 0
+            if l == "n" and rv == 1:
+                return "n-1"
+            if l in ("n", "n-1") and rv == 0:
+                return l
+        return None
+
+    def key(d):
+        return tuple(sorted(d.items(), key=lambda kv: kv[0]))
+
+    verdict = {}
+    for flag in (True, False):
+        dead = flag_false_edges(fn, is_flag) if flag else flag_true_edges(fn, is_flag)
+        seen_vals = set()
+
+        def transfer(pos, ev, st, flag=flag, seen_vals=seen_vals):
+            k = ev.get("k")
+            if k == "decl" and ev.get("vid") is not None and ev.get("init") is not None:
+                d = dict(st)
+                d[ev["vid"]] = classify(ev["init"], st, flag)
+                return key(d)
+            if k == "bin" and ev.get("op") in ("=", "-=") and isinstance(strip_casts(ev.get("l")), dict) and strip_casts(ev.get("l")).get("k") == "var":
+                v = strip_casts(ev["l"])["vid"]
+                d = dict(st)
+                if ev["op"] == "=":
+                    d[v] = classify(ev.get("r"), st, flag)
+                else:
+                    d[v] = "n-1" if (d.get(v) == "n" and const_val(ev.get("r")) == 1) else None
+                return key(d)
+            if k == "un" and ev.get("op") == "--" and isinstance(strip_casts(ev.get("e")), dict) and strip_casts(ev.get("e")).get("k") == "var":
+                v = strip_casts(ev["e"])["vid"]
+                d = dict(st)
+                d[v] = "n-1" if d.get(v) == "n" else None
+                return key(d)
+            if k == "call" and ev.get("name") == sink and ev.get("args"):
+                seen_vals.add(classify(ev["args"][0], st, flag))
+            return st
+
+        def refine(cond, pol, st, b, dead=dead):
+            return None if (b, 0 if pol else 1) in dead else st
+
+        dataflow.run(fn, (), transfer, refine, None)
+        verdict[flag] = seen_vals
+    return verdict
+
+
 def path_without_wait(fn, is_flag, is_wait_event):
     """A path from entry to the normal exit along which the flag is true at every test and no
     waiting event happens, or None."""
